@@ -55,7 +55,7 @@ func parseCase(c Case, rec *evid.Rec) (err error) {
 
 func TestC11(t *testing.T) {
 	evid.Main(t, "C11", func(rec *evid.Rec) {
-		rec.Rapid(t, "epd_parse", evid.Pick(40000, 800000), func(t *rapid.T) {
+		rec.Rapid(t, "epd_parse", evid.Pick(100000, 2000000), func(t *rapid.T) {
 			r, _ := gen.Root(t)
 			line := []byte(r.FEN() + []string{"; 1.0", "; 0.5", "; 0.0", "; 2.0", ";1.0", " 1.0", "", "; 0.5 "}[gen.Draw(t, 0, 7, "tail")])
 			switch gen.Draw(t, 0, 6, "mut") {
